@@ -183,8 +183,15 @@ func c06Run(c lib.Case, env *lib.Env) lib.Result {
 	prev := runtime.GOMAXPROCS(s.Procs)
 	defer runtime.GOMAXPROCS(prev)
 	sc := lib.NewSched(s.Sched, s.SchedSeed)
+	secondHeal := len(s.Damages) > 0 && c.ID%3 == 0
+	if secondHeal {
+		// the goroutine that ran the first call's wound consumer is kept parked (bounded) until the second call on the
+		// same context is under way
+		sc.HoldPoint, sc.HoldMax = "val-consumer-returned", 3*time.Second
+	}
 	lib.SetHook(sc)
 	defer lib.SetHook(nil)
+	defer sc.Finish()
 	vctx := &pwr.ValidatorContext{HealPath: "archive," + zipPath, Consumer: lib.Quiet()}
 	var verr error
 	var panicked bool
@@ -192,8 +199,10 @@ func c06Run(c lib.Case, env *lib.Env) lib.Result {
 	v := lib.RunWithQuiescence(func() {
 		verr, panicked, stack = lib.Guard(func() error { return vctx.Validate(context.Background(), dir, sig) })
 	}, 30*time.Second)
-	sc.Finish()
-	lib.SetHook(nil)
+	if !secondHeal {
+		sc.Finish()
+		lib.SetHook(nil)
+	}
 	res.Add("heals", 1)
 	events := sc.Events()
 	res.Add("hook_events", int64(len(events)))
@@ -248,7 +257,7 @@ func c06Run(c lib.Case, env *lib.Env) lib.Result {
 		res.Violate("assertvalid-fails-after-heal:"+classes, desc, aerr.Error())
 	}
 	// the SAME validator context heals once more: the same directory damaged again, or another damaged copy
-	if len(s.Damages) > 0 && c.ID%3 == 0 {
+	if secondHeal {
 		dir2, where := dir, "same directory damaged again"
 		if c.ID%6 == 3 {
 			dir2, where = filepath.Join(env.Scratch, "tree2"), "another damaged copy"
@@ -267,7 +276,10 @@ func c06Run(c lib.Case, env *lib.Env) lib.Result {
 			v2 := lib.RunWithQuiescence(func() {
 				verr2, p2, st2 = lib.Guard(func() error { return vctx.Validate(context.Background(), dir2, sig) })
 			}, 30*time.Second)
+			sc.Finish()
+			lib.SetHook(nil)
 			res.Add("heals_with_a_context_that_healed_before", 1)
+			res.Add("first_call_consumer_goroutines_parked_until_the_second_call", int64(sc.Held))
 			switch {
 			case !v2.Returned:
 				res.Violate("heal-does-not-return:reused-context:"+classes, desc, where, v2.Report)
